@@ -229,10 +229,18 @@ func conclude(id string, spec *CheckSpec, tier string, all []*Result, wall time.
 	cov["evaluations"] = evals
 	cov["distinct_nontrivial"] = distinct
 	cov["rule"] = strings.Join(rules, " || ")
+	if samples == nil {
+		samples = []any{}
+	}
 	cov["samples"] = samples
 	cov["exhaustive"] = exhaustive
 	cov["parts"] = parts
 	cov["known_findings_reproduced"] = nknown
+	if id != "CONF" {
+		if mc := conformanceSummary(); mc != nil {
+			cov["model_conformance"] = mc
+		}
+	}
 	if spec.Level == "model_checking" {
 		cov["states"] = states
 		cov["transitions"] = trans
@@ -263,6 +271,36 @@ func conclude(id string, spec *CheckSpec, tier string, all []*Result, wall time.
 		return 1
 	}
 	return 0
+}
+
+// conformanceSummary reports what the last run of the conformance suites (vcheck CONF) found:
+// how many programs / scenarios bind the runtime and environment models to native Go, real
+// quic-go and real gorilla/websocket, and how many mismatches there were.
+func conformanceSummary() map[string]any {
+	b, err := os.ReadFile(filepath.Join(verifDir, "evidence", "CONF.json"))
+	if err != nil {
+		return nil
+	}
+	var ev struct {
+		Violations int `json:"violations"`
+		Coverage   struct {
+			Parts map[string]map[string]any `json:"parts"`
+		} `json:"coverage"`
+	}
+	if json.Unmarshal(b, &ev) != nil {
+		return nil
+	}
+	out := map[string]any{"evidence": "/verif/evidence/CONF.json", "mismatches": ev.Violations}
+	for name, key := range map[string]string{"go-model": "programs", "quic-model": "scenarios", "ws-model": "scenarios"} {
+		if p, ok := ev.Coverage.Parts[name]; ok {
+			var m map[string]any
+			if s, _ := p[key].(string); s != "" && json.Unmarshal([]byte(s), &m) == nil {
+				out[strings.TrimSuffix(name, "-model")+"_cases"] = len(m)
+			}
+			out[strings.TrimSuffix(name, "-model")+"_model_executions"] = p["transitions"]
+		}
+	}
+	return out
 }
 
 func mergeExtra(pk map[string]any, k string, v any) {
